@@ -266,7 +266,9 @@ Lemma step_set_meta (T : N -> bytes -> Prop) b f pre dd n i nd m' :
 Proof.
   intros W Hb Hw Hbl Hg Hbi. destruct (dentry_reach f pre dd n i Hw Hbl) as [Rdd Ri].
   apply (step_put_keep D T b f i nd); auto.
+  - apply (reach_lt D f i W Ri).
   - apply (dentry_notD f dd n i W Rdd Hbl).
+  - destruct Hbi; auto.
 Qed.
 
 
@@ -695,7 +697,7 @@ End Call.
 
 (* pwrite through a descriptor of a file the running operation made *)
 Lemma fd_pwrite_step (T : N -> bytes -> Prop) b f i off data :
-  wf f -> b <= f_next f -> reach f i -> i <> D -> b <= i -> step T b f (fst (fd_pwrite f i off data)).
+  wf f -> b <= f_next f -> i < f_next f -> i <> D -> b <= i -> step T b f (fst (fd_pwrite f i off data)).
 Proof.
   intros W Hb Hr HD Hbi. unfold fd_pwrite.
   destruct (get f i) as [[k m]|] eqn:Eg; [|apply step_refl; auto].
